@@ -85,10 +85,10 @@ theorem ok_decide_win {t : Task} (ok : TaskOK t) (hp : t.pc = .decide) (hd : (t.
   · intro h; simp at h
 
 /-- a new attempt begins: context.WithTimeout, fresh doneChan / decided flag -/
-theorem ok_begin {t : Task} (ok : TaskOK t) (hp : t.pc = .loopTest) (hlt : t.att < t.R) (d b : Nat) :
-    TaskOK { (t.setAt t.att { deadline := d, beginAt := b }) with pc := .sendCl, att := t.att + 1 } := by
+theorem ok_begin {t : Task} (ok : TaskOK t) (hp : t.pc = .loopTest) (hlt : t.att < t.R) (d b : Nat) (cd : Bool) :
+    TaskOK { (t.setAt t.att { deadline := d, beginAt := b, ctxDone := cd }) with pc := .sendCl, att := t.att + 1 } := by
   have hnw := no_write ok (by simp [hp, TPc.waiting])
-  have hcur' : ({ (t.setAt t.att { deadline := d, beginAt := b }) with pc := .sendCl, att := t.att + 1 } : Task).cur = t.att := by
+  have hcur' : ({ (t.setAt t.att { deadline := d, beginAt := b, ctxDone := cd }) with pc := .sendCl, att := t.att + 1 } : Task).cur = t.att := by
     simp [Task.cur]
   refine
     { r_pos := ok.r_pos, att_le := ?_, atts := ?_, beyond := ?_, inv_eq := ?_, pre0 := ?_,
@@ -99,7 +99,7 @@ theorem ok_begin {t : Task} (ok : TaskOK t) (hp : t.pc = .loopTest) (hlt : t.att
   · intro a
     show AttOK (upd t.at_ t.att _ a)
     by_cases ha : a = t.att
-    · subst ha; simpa using attOK_fresh d b
+    · subst ha; simpa using attOK_fresh d b cd
     · simpa [ha] using ok.atts a
   · intro a ha
     have ha' : t.att + 1 ≤ a := ha
@@ -114,7 +114,7 @@ theorem ok_begin {t : Task} (ok : TaskOK t) (hp : t.pc = .loopTest) (hlt : t.att
   · intro h; simp [TPc.pre] at h
   · intro _ _; show 1 ≤ t.att + 1; omega
   · intro a ha
-    have ha' : (upd t.at_ t.att { deadline := d, beginAt := b } a).pc.isWrite = true := ha
+    have ha' : (upd t.at_ t.att { deadline := d, beginAt := b, ctxDone := cd } a).pc.isWrite = true := ha
     by_cases hat : a = t.att
     · subst hat; simp [CPc.isWrite] at ha'
     · simp [hat, hnw a] at ha'
@@ -142,22 +142,22 @@ theorem ok_begin {t : Task} (ok : TaskOK t) (hp : t.pc = .loopTest) (hlt : t.att
         exact ⟨t.result, t.err, hpub h1 hf, herr⟩
   · intro _
     rw [hcur']
-    show (upd t.at_ t.att { deadline := d, beginAt := b } t.att).pc = .none ∧ (upd t.at_ t.att { deadline := d, beginAt := b } t.att).decided = 0
+    show (upd t.at_ t.att { deadline := d, beginAt := b, ctxDone := cd } t.att).pc = .none ∧ (upd t.at_ t.att { deadline := d, beginAt := b, ctxDone := cd } t.att).decided = 0
     simp
   · intro _ _; simp [TPc.preDecide]
   · intro _ h
     rw [hcur'] at h
-    have : (upd t.at_ t.att { deadline := d, beginAt := b } t.att).decided = 2 := h
+    have : (upd t.at_ t.att { deadline := d, beginAt := b, ctxDone := cd } t.att).decided = 2 := h
     simp at this
   · intro h; simp at h
   · intro h; simp at h
   · intro _ h
     rw [hcur'] at h
-    have : (upd t.at_ t.att { deadline := d, beginAt := b } t.att).decided = 1 := h
+    have : (upd t.at_ t.att { deadline := d, beginAt := b, ctxDone := cd } t.att).decided = 1 := h
     simp at this
   · intro _ h
     rw [hcur'] at h
-    have : (upd t.at_ t.att { deadline := d, beginAt := b } t.att).decided = 2 := h
+    have : (upd t.at_ t.att { deadline := d, beginAt := b, ctxDone := cd } t.att).decided = 2 := h
     simp at this
   · intro _ h; simp [TPc.post] at h
   · intro h; simp at h
@@ -209,7 +209,7 @@ theorem ok_loopTest {c : Cfg} {now qlen k : Nat} {t t' : Task} (ok : TaskOK t)
   split at h
   · rename_i hp
     split at h
-    · cases h; rename_i hl; exact ok_begin ok hp hl _ _
+    · cases h; rename_i hl; exact ok_begin ok hp hl _ _ _
     · cases h
       rename_i hl
       obtain ⟨h1, h2, h3, h4, h5, h6, h7, h8, h9, h10, h11, h12, h13, h14, h15, h16, h17, h18, h19, h20, h21, h22, h23, h24⟩ := ok
